@@ -27,5 +27,7 @@ for i in range(1, 21):
               "(re-used receivers, evaluators after another call, copies of copies), and interactions between two features. A change whose "
               "effect is quantitatively small (a few bits of noise or precision, one coefficient in N, one call in a sequence) is better "
               "than a drastic one.\n")
+    if len(sys.argv) > 2:
+        extra += "\nEMPHASIS FOR THIS ROUND: " + open(sys.argv[2]).read().strip() + "\n"
     open(f'/tmp/mutprompts/{pid}-{k}.txt', 'w').write(base + extra)
 print('ok')
